@@ -6,6 +6,7 @@ import (
 	"encoding/json"
 	"flag"
 	"fmt"
+	"go/types"
 	"os"
 	"os/exec"
 	"path/filepath"
@@ -21,21 +22,22 @@ import (
 )
 
 var (
-	flagProp    = flag.String("prop", "", "property id (C01..C20), comma separated, or 'all'")
-	flagTier    = flag.String("tier", "quick", "quick|thorough")
-	flagRepo    = flag.String("repo", "/repo", "repository root")
-	flagVerif   = flag.String("verif", "/verif", "verif root (evidence, reports, known findings)")
-	flagWorker  = flag.Bool("worker", false, "internal: run one configuration and print JSON")
-	flagConfig  = flag.String("config", "", "internal: configuration GOOS/GOARCH/tags")
-	flagMutant  = flag.String("mutant", "", "internal: mutant id to overlay")
-	flagOut     = flag.String("out", "", "internal: worker output file")
-	flagReplay  = flag.String("replay", "", "re-decide the obligation recorded in a report file")
-	flagVerbose = flag.Bool("v", false, "print every obligation")
-	flagNoMut   = flag.Bool("nomutants", false, "skip overlay mutants")
-	flagList    = flag.Bool("list", false, "list rules")
-	flagSurvey  = flag.String("survey", "", "development aid: run every mutant of an automut file against all rules and report survivors")
-	flagMutFile = flag.String("mutfile", "", "internal: automut file the -mutant id refers to")
-	flagJobs    = flag.Int("jobs", 12, "parallel workers for -survey")
+	flagProp      = flag.String("prop", "", "property id (C01..C20), comma separated, or 'all'")
+	flagTier      = flag.String("tier", "quick", "quick|thorough")
+	flagRepo      = flag.String("repo", "/repo", "repository root")
+	flagVerif     = flag.String("verif", "/verif", "verif root (evidence, reports, known findings)")
+	flagWorker    = flag.Bool("worker", false, "internal: run one configuration and print JSON")
+	flagConfig    = flag.String("config", "", "internal: configuration GOOS/GOARCH/tags")
+	flagMutant    = flag.String("mutant", "", "internal: mutant id to overlay")
+	flagOut       = flag.String("out", "", "internal: worker output file")
+	flagReplay    = flag.String("replay", "", "re-decide the obligation recorded in a report file")
+	flagVerbose   = flag.Bool("v", false, "print every obligation")
+	flagNoMut     = flag.Bool("nomutants", false, "skip overlay mutants")
+	flagList      = flag.Bool("list", false, "list rules")
+	flagSurvey    = flag.String("survey", "", "development aid: run every mutant of an automut file against all rules and report survivors")
+	flagMutFile   = flag.String("mutfile", "", "internal: automut file the -mutant id refers to")
+	flagDumpFuncs = flag.Bool("dumpfuncs", false, "development aid: print the function keys of the module over the whole configuration matrix (source of core/baseline_funcs.txt)")
+	flagJobs      = flag.Int("jobs", 12, "parallel workers for -survey")
 )
 
 // Mutant is a textual exact-once replacement applied through the loader overlay.
@@ -87,6 +89,9 @@ func main() {
 			}
 		}
 		return
+	}
+	if *flagDumpFuncs {
+		os.Exit(dumpFuncs())
 	}
 	if *flagWorker {
 		os.Exit(worker())
@@ -176,6 +181,8 @@ func worker() (code int) {
 		return 3
 	}
 	res.Packages = len(p.Pkgs)
+	res.Absorbed = p.AbsorbedNames()
+	res.InlineErrors = p.InlineErrors
 	for _, pk := range p.Pkgs {
 		res.Funcs += len(p.FuncsOf(pk))
 	}
@@ -412,6 +419,7 @@ func finishProp(prop, tier string, seed int, jobs, mjobs []*job, mutOf map[*job]
 	var results []core.WorkerResult
 	var loadErrs []string
 	pkgs, funcs, ssaFuncs := 0, 0, 0
+	absorbed := map[string]bool{}
 	ruleSites := map[string]int{}
 	baseViol := map[string]map[string]bool{} // config -> violated keys
 	var cfgNames []string
@@ -461,6 +469,9 @@ func finishProp(prop, tier string, seed int, jobs, mjobs []*job, mutOf map[*job]
 		}
 		if r.SSAFuncs > ssaFuncs {
 			ssaFuncs = r.SSAFuncs
+		}
+		for _, a := range r.Absorbed {
+			absorbed[a] = true
 		}
 		for k, v := range r.Rules {
 			if rulePrefix(k) == prop && v > ruleSites[k] {
@@ -624,6 +635,7 @@ func finishProp(prop, tier string, seed int, jobs, mjobs []*job, mutOf map[*job]
 		"packages":            pkgs,
 		"functions":           funcs,
 		"ssa_functions":       ssaFuncs,
+		"absorbed_helpers":    sortedKeys(absorbed),
 		"rules":               ruleList,
 		"mutants":             map[string]any{"run": len(mr), "killed": mKilled, "stale": mStale, "survived": mSurv, "detail": mr},
 		"checker_cmd":         fmt.Sprintf("/verif/bin/gnetlint -prop %s -tier %s", prop, tier),
@@ -746,4 +758,41 @@ func replay() int {
 		fmt.Println("obligation no longer exists on the current tree (construct removed or renamed)")
 	}
 	return code
+}
+
+// dumpFuncs prints pkgpath.Recv.Name for every module function in every configuration of the matrix.
+func dumpFuncs() int {
+	seen := map[string]bool{}
+	for _, cfg := range rules.Matrix {
+		p, err := core.Load(*flagRepo, cfg, nil)
+		if err != nil {
+			fmt.Fprintln(os.Stderr, err)
+			return 3
+		}
+		for _, pk := range p.Pkgs {
+			for _, obj := range pk.TypesInfo.Defs {
+				if fn, ok := obj.(*types.Func); ok && p.RawDecl(fn) != nil {
+					seen[core.FuncKey(fn)] = true
+				}
+			}
+		}
+	}
+	var keys []string
+	for k := range seen {
+		keys = append(keys, k)
+	}
+	sort.Strings(keys)
+	for _, k := range keys {
+		fmt.Println(k)
+	}
+	return 0
+}
+
+func sortedKeys(m map[string]bool) []string {
+	out := []string{}
+	for k := range m {
+		out = append(out, k)
+	}
+	sort.Strings(out)
+	return out
 }
